@@ -29,8 +29,8 @@
 
 /* ------------------------------------------------------------------------------------------ */
 /* run configuration                                                                          */
-enum { M_PRED = 0, M_TERMTIME, M_STOP_INIT, M_STOP_MID, M_SCRIPT, M_PRED_AT_INIT, M_COUNT };
-static const char *const mode_names[] = {"pred", "termtime", "stop_init", "stop_mid", "script", "pred_at_init"};
+enum { M_PRED = 0, M_TERMTIME, M_STOP_INIT, M_STOP_MID, M_SCRIPT, M_PRED_AT_INIT, M_DRYUP, M_COUNT };
+static const char *const mode_names[] = {"pred", "termtime", "stop_init", "stop_mid", "script", "pred_at_init", "dryup"};
 struct runcfg {
 	unsigned mode, n_threads, n_lps, ckpt, gvt_period, target, slow_rid, slow_us, stop_at;
 	double term_time;
@@ -306,6 +306,8 @@ static void m_dispatch(lp_id_t me, simtime_t now, unsigned type, const void *pl,
 		atomic_store(&stop_called, 1);
 		RootsimStop();
 	}
+	if(cfg.mode == M_DRYUP && s->cnt >= cfg.target)
+		return; /* finite event chains, predicate never true: the run ends when nothing is left (last GVT = SIMTIME_MAX) */
 	lp_id_t dest = (s->h >> 3) % 4 == 0 ? me : (s->h >> 8) % cfg.n_lps;
 	unsigned k = (s->h >> 20) % 8; /* 0 => zero-delay hop: same timestamp, ordered AFTER the current event
 	                                * by the tie-break of msg_is_before_extended (a smaller m_type comes later) */
@@ -730,15 +732,15 @@ static void pick_cfg(unsigned run, int tier)
 	memset(&cfg, 0, sizeof(cfg));
 	/* a fixed prefix guarantees every kind of run in every seed; the rest is random */
 	static const unsigned fixed_mode[] = {M_STOP_INIT, M_PRED_AT_INIT, M_PRED, M_PRED, M_TERMTIME, M_STOP_MID,
-	    M_PRED, M_STOP_INIT, M_PRED_AT_INIT, M_TERMTIME, M_STOP_MID, M_PRED};
-	static const unsigned fixed_thr[] = {1, 1, 1, 2, 1, 1, 2, 2, 2, 2, 2, 1};
+	    M_PRED, M_STOP_INIT, M_PRED_AT_INIT, M_TERMTIME, M_STOP_MID, M_PRED, M_DRYUP, M_DRYUP};
+	static const unsigned fixed_thr[] = {1, 1, 1, 2, 1, 1, 2, 2, 2, 2, 2, 1, 1, 2};
 	unsigned nfix = sizeof(fixed_mode) / sizeof(*fixed_mode);
 	if(run < nfix) {
 		cfg.mode = fixed_mode[run];
 		cfg.n_threads = fixed_thr[run];
 	} else {
 		unsigned r = vrng_below(20);
-		cfg.mode = r < 9 ? M_PRED : r < 13 ? M_TERMTIME : r < 15 ? M_STOP_INIT : r < 18 ? M_STOP_MID : M_PRED_AT_INIT;
+		cfg.mode = r < 8 ? M_PRED : r < 12 ? M_TERMTIME : r < 14 ? M_STOP_INIT : r < 17 ? M_STOP_MID : r < 18 ? M_DRYUP : M_PRED_AT_INIT;
 		unsigned q = vrng_below(10);
 		cfg.n_threads = q < 5 ? 1 : 2;
 		if(tier && q >= 8) cfg.n_threads = 3 + vrng_below(2);
@@ -967,10 +969,10 @@ int main(int argc, char **argv)
 	       "\"one_round_runs\":%lu,\"many_round_runs\":%lu,\"max_rounds\":%lu,\"file_bytes\":%lu,"
 	       "\"corrupted_decodes\":%lu,\"scripted_runs\":%lu,\"scripted_hung\":%lu,"
 	       "\"hang_retries\":%lu,\"crashes\":%lu,\"gave_up\":%lu,\"oracle_lines\":%lu,"
-	       "\"by_mode\":{\"pred\":%lu,\"termtime\":%lu,\"stop_init\":%lu,\"stop_mid\":%lu,\"script\":%lu,\"pred_at_init\":%lu},"
+	       "\"by_mode\":{\"pred\":%lu,\"termtime\":%lu,\"stop_init\":%lu,\"stop_mid\":%lu,\"script\":%lu,\"pred_at_init\":%lu,\"dryup\":%lu},"
 	       "\"by_threads\":{\"1\":%lu,\"2\":%lu,\"3\":%lu,\"4\":%lu}}\n",
 	    runs_ok, recs, tot[0], tot[1], tot[2], tot[3], tot[4], tot[5], mism, zero_rounds, one_round, many_rounds,
 	    max_rounds, bytes, corrupt, scripts, scripts_hung, hangs, crashes, gave_up, oracle, by_mode[0], by_mode[1],
-	    by_mode[2], by_mode[3], by_mode[4], by_mode[5], by_thr[1], by_thr[2], by_thr[3], by_thr[4]);
+	    by_mode[2], by_mode[3], by_mode[4], by_mode[5], by_mode[6], by_thr[1], by_thr[2], by_thr[3], by_thr[4]);
 	return 0;
 }
